@@ -188,3 +188,41 @@ def run(chk, F, rid="R-INST"):
     chk.ob(rid, "instantiation_end|arity", guarded and len(adds) == 2,
            "instantiation_end does not compare the number of arguments with the number of parameters before binding",
            "%s:%s" % (ie["file"], ie["line"]))
+
+
+def run_arity_sync(chk, F, rid="R-ARITYSYNC"):
+    """`every instance has a type whose arity equals its number of unbound parameters`: the type is created from the
+    parameter frame in the same function that stores that frame and its size.  Any function that assigns
+    instance_t::unbound or instance_t::parameters must therefore also give the symbol a type built from the same
+    frame (create_instance / create_LSC_instance / create_process* + add_symbol or set_type) - otherwise the three
+    drift apart."""
+    chk.rule(rid, "every function that assigns instance_t::unbound or ::parameters also creates the instance's symbol "
+                  "type from that parameter frame in the same function (or is the instance-line helper, whose objects "
+                  "carry no instance type)")
+    n = 0
+    for fn in F.functions.values():
+        if not (fn.get("file") or "").endswith((".cpp", ".h", ".hpp")):
+            continue
+        hits = set()
+        for x in walk(fn.get("body")):
+            lhs = None
+            if x.get("k") == "bin" and x.get("op") == "=":
+                lhs = x["lhs"]
+            elif x.get("k") == "call" and x.get("ck") == "op" and x.get("op") == "=":
+                lhs = x.get("recv") or (x.get("args") or [None])[0]
+            if isinstance(lhs, dict) and lhs.get("k") == "member" and lhs.get("name") in ("unbound", "parameters") and \
+                    lhs.get("of") == "UTAP::instance_t":
+                hits.add(lhs["name"])
+        if not hits:
+            continue
+        n += 1
+        names = {c.get("name") for c in walk(fn["body"]) if c.get("k") == "call"}
+        typed = bool(names & {"create_instance", "create_LSC_instance", "create_process", "create_process_set"}) and \
+            bool(names & {"add_symbol", "set_type"})
+        exempt = fn["q"].endswith("::add_parameters")      # instance lines: registered by instance_name with a primitive type
+        chk.ob(rid, fn["q"].split("::")[-1], typed or exempt,
+               "%s assigns instance_t::%s but does not (re)create the symbol's instance type from the same parameter "
+               "frame: the arity of the type and the number of unbound parameters can differ afterwards" %
+               (fn["q"], "/".join(sorted(hits))), "%s:%s" % (fn["file"], fn["line"]))
+    if n < 2:
+        raise AnalysisBroken("only %d functions assign instance_t::unbound/parameters" % n)
